@@ -159,22 +159,24 @@ theorem approve_iff (g : G) (v : Verifier F G) (e : EncDeal F G) (rnd : Nat) (d 
       (validT d.t v.vs.length = true ∧ d.sid = Sid.h v.dealer v.vs d.commits d.t ∧
         ∃ val : F, d.share = some ⟨(v.index : Int), some val⟩ ∧
           val • g = pubEval (S := F) d.commits (v.index : Int)) := by
-  obtain ⟨hnone, hne, heq⟩ := process_fresh g v e rnd d hv hidx hd
+  obtain ⟨hnone, hnov, hne, heq⟩ := process_fresh g v e rnd d hv hidx hd
   constructor
   · rintro ⟨v', r, hp, hst⟩
     rcases hsh : d.share with _ | sh
     · rw [hnone hsh] at hp; cases hp
-    · by_cases hi : sh.i = (v.index : Int)
-      · obtain ⟨v'', r', hp', _, _, _, hiff⟩ := heq sh hsh hi
-        rw [hp'] at hp
-        injection hp with _ hp; injection hp with hp; subst hp
-        obtain ⟨i', val, hs', hT, hsid, _, _, hchk⟩ := hiff.1 hst
-        rw [hsh] at hs'; injection hs' with hs'; subst hs'
-        simp only at hi; subst hi
-        exact ⟨hT, hsid.symm, val, rfl, hchk⟩
-      · rw [hne sh hsh hi] at hp; cases hp
+    · by_cases hvn : sh.v = none
+      · rw [hnov sh hsh hvn] at hp; cases hp
+      · by_cases hi : sh.i = (v.index : Int)
+        · obtain ⟨v'', r', hp', _, _, _, hiff⟩ := heq sh hsh hvn hi
+          rw [hp'] at hp
+          injection hp with _ hp; injection hp with hp; subst hp
+          obtain ⟨i', val, hs', hT, hsid, _, _, hchk⟩ := hiff.1 hst
+          rw [hsh] at hs'; injection hs' with hs'; subst hs'
+          simp only at hi; subst hi
+          exact ⟨hT, hsid.symm, val, rfl, hchk⟩
+        · rw [hne sh hsh hvn hi] at hp; cases hp
   · rintro ⟨hT, hsid, val, hsh, hchk⟩
-    obtain ⟨v', r, hp, _, _, _, hiff⟩ := heq ⟨(v.index : Int), some val⟩ hsh rfl
+    obtain ⟨v', r, hp, _, _, _, hiff⟩ := heq ⟨(v.index : Int), some val⟩ hsh (by simp) rfl
     exact ⟨v', r, hp, hiff.2 ⟨(v.index : Int), val, hsh, hT, hsid.symm, by omega, by omega, hchk⟩⟩
 
 /-- **2b. Otherwise a complaint or an error – never an approval.**  In every other case
@@ -215,15 +217,17 @@ theorem response_binds (g : G) (v : Verifier F G) (e : EncDeal F G) (rnd : Nat) 
       r.sig = .sign v.long r.sid v.index r.status rnd := by
   rcases hd : decryptDeal g v e with err | d
   · rw [process_decrypt_error g v e rnd err hd] at hp; cases hp
-  · obtain ⟨hnone, hne, heq⟩ := process_fresh g v e rnd d hv hidx hd
+  · obtain ⟨hnone, hnov, hne, heq⟩ := process_fresh g v e rnd d hv hidx hd
     rcases hsh : d.share with _ | sh
     · rw [hnone hsh] at hp; cases hp
-    · by_cases hi : sh.i = (v.index : Int)
-      · obtain ⟨v'', r', hp', h1, h2, h3, _⟩ := heq sh hsh hi
-        rw [hp'] at hp
-        injection hp with _ hp; injection hp with hp; subst hp
-        exact ⟨d, rfl, h1, h2, h3⟩
-      · rw [hne sh hsh hi] at hp; cases hp
+    · by_cases hvn : sh.v = none
+      · rw [hnov sh hsh hvn] at hp; cases hp
+      · by_cases hi : sh.i = (v.index : Int)
+        · obtain ⟨v'', r', hp', h1, h2, h3, _⟩ := heq sh hsh hvn hi
+          rw [hp'] at hp
+          injection hp with _ hp; injection hp with hp; subst hp
+          exact ⟨d, rfl, h1, h2, h3⟩
+        · rw [hne sh hsh hvn hi] at hp; cases hp
 
 /-! ### non-vacuity: a concrete dealer, list and verifier over ℚ (`g = 1`) -/
 
